@@ -482,6 +482,12 @@ pub fn build(spec: &RecorderSpec) -> Model {
         }
     }
 
+    for (c, sz) in &spec.extras.phantom {
+        if !table.iter().any(|(k, _)| k == c) && *sz > 0 && *c != L::CODE_PAYLOADS {
+            table.push((*c, *sz));
+        }
+    }
+
     // base events (typed), then unknown insertion, then encoding
     struct Pending {
         bytes: Vec<u8>,
@@ -512,6 +518,8 @@ pub fn build(spec: &RecorderSpec) -> Model {
     // last payloads per character, for "sticky" repeats
     let mut last_pre: BTreeMap<(usize, bool), Vec<u8>> = BTreeMap::new();
     let mut last_post: BTreeMap<(usize, bool), Vec<u8>> = BTreeMap::new();
+    let mut last_fstart: Option<Vec<u8>> = None;
+    let mut last_fend: Option<Vec<u8>> = None;
     let restamp = |ev: &mut Vec<u8>, id: i32| ev[1..5].copy_from_slice(&id.to_be_bytes());
     let blank_out = |rng: &mut Rng, ev: &mut Vec<u8>, hdr: usize| {
         let fill = if rng.chance(1, 2) { 0u8 } else { 0xFF };
@@ -523,7 +531,12 @@ pub fn build(spec: &RecorderSpec) -> Model {
         let mut rng = Rng::new(fs.pseed);
         let mut occ = Occ { id: fs.id, ..Default::default() };
         if has_fstart {
-            let ev = frame_event(&mut rng, Kind::FStart, v, tr(L::CODE_FSTART), spec.special_rate, fs.id, 0, false);
+            let mut ev = frame_event(&mut rng, Kind::FStart, v, tr(L::CODE_FSTART), spec.special_rate, fs.id, 0, false);
+            if let (true, Some(p)) = (spec.idle, &last_fstart) {
+                ev = p.clone();
+                restamp(&mut ev, fs.id);
+            }
+            last_fstart = Some(ev.clone());
             occ.fstart = Some(ev);
         }
         let mut chars: Vec<(usize, bool)> = vec![];
@@ -539,7 +552,16 @@ pub fn build(spec: &RecorderSpec) -> Model {
             let port = spec.ports[slot].port;
             let mut pre = frame_event(&mut rng, Kind::Pre, v, tr(L::CODE_PRE), spec.special_rate, fs.id, port, fol);
             let mut post = frame_event(&mut rng, Kind::Post, v, tr(L::CODE_POST), spec.special_rate, fs.id, port, fol);
-            if spec.sticky > 0 {
+            if spec.idle {
+                if let Some(p) = last_pre.get(&(slot, fol)) {
+                    pre = p.clone();
+                    restamp(&mut pre, fs.id);
+                }
+                if let Some(p) = last_post.get(&(slot, fol)) {
+                    post = p.clone();
+                    restamp(&mut post, fs.id);
+                }
+            } else if spec.sticky > 0 {
                 if let (Some(p), true) = (last_pre.get(&(slot, fol)), rng.below(spec.sticky as u64) == 0) {
                     pre = p.clone();
                     restamp(&mut pre, fs.id);
@@ -566,8 +588,13 @@ pub fn build(spec: &RecorderSpec) -> Model {
             for _ in 0..fs.items {
                 items.push(frame_event(&mut rng, Kind::Item, v, tr(L::CODE_ITEM), spec.special_rate, fs.id, 0, false));
             }
-            occ.fend =
-                Some(frame_event(&mut rng, Kind::FEnd, v, tr(L::CODE_FEND), spec.special_rate, fs.id, 0, false));
+            let mut ev = frame_event(&mut rng, Kind::FEnd, v, tr(L::CODE_FEND), spec.special_rate, fs.id, 0, false);
+            if let (true, Some(p)) = (spec.idle, &last_fend) {
+                ev = p.clone();
+                restamp(&mut ev, fs.id);
+            }
+            last_fend = Some(ev.clone());
+            occ.fend = Some(ev);
         }
         // emission order
         if let Some(e) = &occ.fstart {
